@@ -1152,7 +1152,13 @@ def c18(ctx: Ctx) -> None:
     ex = p.func(IT, 'exhaust')
     ge = build(ex, p)
     prm = ex.params[0]
-    dq = [n for n in ge.nodes if n.kind == 'call' and ge.res.path(n.ast.func) == 'collections.deque' and n.ast.args and norm(n.ast.args[0]) == prm
+    def _is_prm(n_, a_) -> bool:
+        # the argument itself, or `iter(argument)` (through a local): the same stream
+        v_ = resolve(ge, n_, a_)
+        if isinstance(v_, ast.Call) and isinstance(v_.func, ast.Name) and v_.func.id == 'iter' and len(v_.args) == 1 and not v_.keywords:
+            v_ = v_.args[0]
+        return norm(v_) == prm
+    dq = [n for n in ge.nodes if n.kind == 'call' and ge.res.path(n.ast.func) == 'collections.deque' and n.ast.args and _is_prm(n, n.ast.args[0])
           and any(k.arg == 'maxlen' and isinstance(k.value, ast.Constant) and k.value.value == 0 for k in n.ast.keywords)]
     # `deque(maxlen=0).extend(iterable)`
     dq += [n for n in ge.nodes if n.kind == 'call' and isinstance(n.ast.func, ast.Attribute) and n.ast.func.attr == 'extend'
